@@ -140,6 +140,18 @@ func (bf *byteFlow) classify(v ssa.Value) bclass {
 }
 
 func (bf *byteFlow) classify0(v ssa.Value) bclass {
+	// the name column of a local literal table (for _, r := range [...]struct{name string; …}{{"to", …}, …}): constants
+	if rows, nf, _, isRow := literalTableRowsOf(v); isRow && len(rows) > 0 {
+		allConst := true
+		for _, row := range rows {
+			if _, isC := row[nf].(*ssa.Const); !isC {
+				allConst = false
+			}
+		}
+		if allConst {
+			return bclass{}
+		}
+	}
 	switch x := v.(type) {
 	case *ssa.Const:
 		return bclass{}
